@@ -63,12 +63,18 @@ func decodeOK(v reflect.Value) bool {
 	return pan == "" && err == nil && equalNorm(v, d)
 }
 
-var wrapCache = map[string]reflect.Type{}
+type wrapKey struct {
+	name string
+	typ  reflect.Type // the type itself, not its printed name: two types may print alike
+	tag  reflect.StructTag
+}
+
+var wrapCache = map[wrapKey]reflect.Type{}
 
 // wrap1 puts the value of one field into a struct that has only that field (same name, type, tag).
 func wrap1(parent reflect.Type, f fieldInfo, fv reflect.Value) reflect.Value {
 	sf := parent.Field(f.idx)
-	key := sf.Name + "|" + sf.Type.String() + "|" + string(sf.Tag)
+	key := wrapKey{sf.Name, sf.Type, sf.Tag}
 	wt, ok := wrapCache[key]
 	if !ok {
 		wt = reflect.StructOf([]reflect.StructField{{Name: sf.Name, Type: sf.Type, Tag: sf.Tag}})
